@@ -157,3 +157,11 @@ func vPopcount8(x uint8) int {
 	return n
 }
 func vTableString(table []string, idx int) string { return table[idx] }
+
+func vParam(name string, def int) int {
+	vLoadModel()
+	if v, ok := vModel["@param:"+name].(float64); ok {
+		return int(v)
+	}
+	return def
+}
